@@ -970,3 +970,44 @@ def r4_8(rep):
     for n in it:
         neg = [g for pol, kind, g in tb.guards(n) if kind == "cond" and not pol]
         rep.check(bool(neg), "itanium-abi-otherwise", "ABIKind::GenericItanium is the alternative of that test", tb.loc(n))
+
+
+@RULES.rule("R4.9", "an array type is const when its innermost element type is (arrays of arrays)", floor=1)
+def r4_9(rep):
+    """In C the qualifier of `const int n[2][3][4]` belongs to `int`; clang reports neither the outer array types nor `const int[4]`'s
+    enclosing `[3]` level as const-qualified.  `Type::from_clang_ty` derives an array's const-ness from its element type; looking
+    one level down only makes `void k3(const int n[2][3][4])` a `*mut [[c_int; 4]; 3]` parameter (and a `const int grid[2][3]`
+    global `static mut`), while `const int n[4]` is right."""
+    prog = rep.prog
+    b = rep.need(prog.fn("ir::ty::Type::from_clang_ty"), "Type::from_clang_ty")
+    news = [c for c in b.calls(lambda n: n["k"] == "Call" and callee_of(n) == "ir::ty::Type::new" and len(n["args"]) == 4)]
+    rep.need(news, "Type::new(name, layout, kind, is_const) in Type::from_clang_ty")
+    n_sites = 0
+    for c in news:
+        e = c["args"][3]
+        exprs, todo, seen = [], [e], set()
+        while todo:
+            x = todo.pop()
+            exprs.append(x)
+            for y in b.walk(x):
+                if y["k"] == "Local" and y["id"] not in seen:
+                    seen.add(y["id"])
+                    d = b.local_def.get(y["id"])
+                    if d and d[0][0] == "let" and d[0][1].get("init") is not None:
+                        todo.append(d[0][1]["init"])
+                        # a `let mut flag = false; while .. { flag = true }` local: its assignments belong to the value too
+                        todo += [a["r"] for a in b.nodes if a["k"] == "Assign" and strip(a["l"]).get("k") == "Local" and strip(a["l"])["id"] == y["id"]]
+        reads = [y for x in exprs for y in b.walk(x) if y["k"] == "MCall" and y.get("name") == "elem_type"]
+        # assignments made inside a loop are found through the loop as well
+        loops = [l for l in b.nodes if l["k"] in ("While", "Loop", "For") and any(y["k"] == "Local" and y["id"] in seen for y in b.walk(l))]
+        for l in loops:
+            reads += [y for y in b.walk(l) if y["k"] == "MCall" and y.get("name") == "elem_type"]
+        if not reads:
+            continue
+        n_sites += 1
+        nested = any(any(a["k"] in ("While", "Loop", "For") for a in b.ancestors(r)) for r in reads) or \
+            any(callee_of(y).endswith("canonical_type") or y.get("name") in ("innermost_elem_type", "array_elem_type_recursive")
+                for x in exprs for y in b.walk(x) if y["k"] in ("MCall", "Call"))
+        rep.check(nested, "array-constness:innermost-element", "the element chain is followed down to the innermost element type" if nested else
+                  "only the direct element type is asked for const-ness: `const int n[2][3][4]` is not const", b.loc(reads[0]))
+    rep.need(n_sites >= 1, "an array const-ness computation reading elem_type() in Type::from_clang_ty")
